@@ -268,7 +268,7 @@ def run(S):
         ob, ex = S.explore('range.text[n=%d]' % n,
                            'format_source_range on every text of %d code points x every boundary range (end also beyond the text): no panic, '
                            'cover search receives exactly the blank-trimmed range, nest() receives the spaces after the last LF' % n,
-                           make_text_body(n), bounds=dict(code_points=n, tree='Markup[Text]'))
+                           make_text_body(n), bounds=dict(code_points=n, tree='Markup[Text]'), parallel=True)
         for lab, mdl, info in ex.violations:
             found.append((lab, info))
         if ex.violations or ob.status.startswith('inconclusive'):
@@ -353,7 +353,7 @@ def run(S):
             name = ''.join('L' if c == 'L' else 'I%d' % c[1] for c in shape) or 'empty'
             ob, ex = S.explore('range.tree[%s]' % name,
                                'cover search + dispatch on abstract tree %s with symbolic leaf lengths (<=8 bytes), kinds, error flags and any '
-                               'trimmed range within the text' % name, make_tree_body(shape), bounds=dict(shape=name, leaf_len='0..8'))
+                               'trimmed range within the text' % name, make_tree_body(shape), bounds=dict(shape=name, leaf_len='0..8'), parallel=True)
             for lab, mdl, info in ex.violations:
                 found.append((lab, info))
             if len(found) > 20 or ob.status.startswith('inconclusive'):
